@@ -25,9 +25,15 @@ Inductive eerr :=
 (* ---- I/O events ------------------------------------------------------------- *)
 Inductive fname :=
 | FData (id : N) | FHint | MData (id : N) | MHint | MMarker.
+(* what a write carries (the driver prints only the file and the byte count; the content is
+   what the crash-image construction of Crash.v replays) *)
+Inductive wdata :=
+| WRecs (rs : list (record * pos))      (* framed log records with their positions *)
+| WHint (k : bytes) (p : pos)           (* one hint entry *)
+| WMarker (id : N).                     (* the merge-finished marker *)
 Inductive event :=
 | EvCreate (f : fname) | EvOpen (f : fname)
-| EvWrite (f : fname) (n : N) | EvSync (f : fname) | EvClose (f : fname) | EvTrunc (f : fname) (n : N)
+| EvWrite (f : fname) (n : N) (w : wdata) | EvSync (f : fname) | EvClose (f : fname) | EvTrunc (f : fname) (n : N)
 | EvMkdirData | EvMkdirMerge | EvRemove (f : fname) | EvRename (a b : fname) | EvRemoveAllMerge.
 
 (* ---- files at record level ------------------------------------------------- *)
@@ -72,9 +78,9 @@ Definition h_write (io : N) (nm : fname) (f : lfile) (rs : list (record * pos)) 
   if io =? io_MMap then
     let '(f1, evs) := h_remap nm f (lf_size f) n in
     (mkLf (lf_recs f1 ++ rs) (lf_size f1 + n) (lf_phys f1) (lf_mapend f1) (lf_torn f1) (lf_durable f1),
-     evs ++ [EvWrite nm n])
+     evs ++ [EvWrite nm n (WRecs rs)])
   else
-    (mkLf (lf_recs f ++ rs) (lf_size f + n) (lf_phys f + n) 0 (lf_torn f) (lf_durable f), [EvWrite nm n]).
+    (mkLf (lf_recs f ++ rs) (lf_size f + n) (lf_phys f + n) 0 (lf_torn f) (lf_durable f), [EvWrite nm n (WRecs rs)]).
 
 (* ReadWriter.Read of n bytes at off (only MMap has an effect: it may re-extend the mapping) *)
 Definition h_read (io : N) (nm : fname) (f : lfile) (off n : N) : lfile * list event :=
@@ -678,7 +684,7 @@ Definition ms_hint_append (c : cfg) (m : mstate) (k : bytes) (p : pos) : mstate 
   let n := bid' * blockSize + bsz' - hf_size h in
   let phys := if c_io c =? io_MMap then hf_phys h else hf_size h + n in
   (mkMs (ms_active_id m) (ms_active m) (ms_older m) (mkHf (hf_recs h ++ [(k, p)]) (hf_size h + n) phys),
-   [EvWrite MHint n]).
+   [EvWrite MHint n (WHint k p)]).
 
 Inductive merge_step_res := MsOk (m : mstate) | MsErr (e : eerr) (m : mstate).
 
@@ -764,9 +770,9 @@ Definition db_merge (d : db) (k : disk) (order : list N) : db * disk * option ee
     let '(o1, ev8) := ms_close_older (c_io c) (ms_older m) in
     (* marker: created, 4 raw bytes written, closed *)
     let ev9 := if c_io c =? io_MMap
-               then [EvCreate MMarker; EvTrunc MMarker mmapBlockSize; EvWrite MMarker 4;
+               then [EvCreate MMarker; EvTrunc MMarker mmapBlockSize; EvWrite MMarker 4 (WMarker non_merge);
                      EvSync MMarker; EvTrunc MMarker 4; EvClose MMarker]
-               else [EvCreate MMarker; EvWrite MMarker 4; EvSync MMarker; EvClose MMarker] in
+               else [EvCreate MMarker; EvWrite MMarker 4 (WMarker non_merge); EvSync MMarker; EvClose MMarker] in
     (d2, mkDisk (k_data k) (k_hint k)
            (Some (mkMdir (older_set o1 (ms_active_id m) a1) (Some h1) (Some non_merge))),
      None, ev1 ++ ev2 ++ ev3 ++ ev4 ++ ev5 ++ ev6 ++ ev7 ++ ev8 ++ ev9)
